@@ -91,7 +91,7 @@ CHECKS = {
         "groups": [
             {"name": "c17", "run": "^TestC17_", "shards": {"quick": 8, "thorough": 16},
              "timeout": {"quick": 600, "thorough": 3000},
-             "checks": ["c17-matrix", "c17-ids", "c17-close"]},
+             "checks": ["c17-matrix", "c17-ids", "c17-close", "c17-id-entropy-fault"]},
         ],
     },
     "C18": {
